@@ -459,6 +459,7 @@ def twin_callable(rng, sd, ac, st, cs):
             break
     ac2 = copy.deepcopy(ac)
     n = 0
+    kinked = [False]
 
     def as_function(v):
         if isinstance(v, (int, float)):
@@ -466,6 +467,8 @@ def twin_callable(rng, sd, ac, st, cs):
         xs, ys = [float(r_[0]) for r_ in v], [float(r_[1]) for r_ in v]
         if len(set(xs)) != len(xs):
             return None                     # (a step table has no function of the span fraction)
+        if len(xs) > 2:
+            kinked[0] = True                # (a function with corners: the code cannot know where to split its quadrature)
         return lambda s_, xs=xs, ys=ys: np.interp(s_, xs, ys)
     for w in ac2["wings"].values():
         if "quarter_chord_locs" in w or w.get("ll_offset") == "kuchemann":
@@ -483,7 +486,7 @@ def twin_callable(rng, sd, ac, st, cs):
                     n += 1
     if n == 0:
         return None
-    return (sd, ac, st, cs), (sd, ac2, st, cs), "callable"
+    return (sd, ac, st, cs), (sd, ac2, st, cs), ("callable-with-corners" if kinked[0] else "callable")
 
 
 def twin_int_float(rng, sd, ac, st, cs):
@@ -632,10 +635,12 @@ def twin_sweep(chk, MX, n):
         if name == "units":
             bad = compare_units(ra, rb)
         else:
-            tolr = 5e-6 if name in ("annotations", "csv") else 2e-6
+            # (a table is integrated piece by piece between its nodes; the same table wrapped in a function is integrated by scipy's quad
+            # across its corners, to quad's own accuracy there)
+            tolr = 5e-6 if name in ("annotations", "csv") else (3e-5 if name == "callable-with-corners" else 2e-6)
             # (annotated values go through the code's unit table, whose constants carry seven digits: a quantity that is small through
             # cancellation inherits that error relative to the largest load of its kind, not to itself)
-            bad = api.compare(ra, rb, rtol=tolr, atol=2e-7, scale_atol=5e-6 if name in ("annotations", "csv") else 2e-8)
+            bad = api.compare(ra, rb, rtol=tolr, atol=2e-7, scale_atol=5e-6 if name in ("annotations", "csv") else (2e-5 if name == "callable-with-corners" else 2e-8))
         chk.case(dict(twin=name, units=units, n_wings=len(ac["wings"]), digest=common.hashlib.sha1(json.dumps([A, B], sort_keys=True, default=str).encode()).hexdigest()[:10]), nontrivial=True)
         chk.count("twin=" + name)
         per[name] = per.get(name, 0) + 1
